@@ -111,6 +111,13 @@ def fault_sites(d, machine):
     return sites
 
 
+def _at(d, path):
+    cur = d
+    for p in path:
+        cur = cur[p]
+    return cur
+
+
 def apply_fault(d, path, kind):
     d = copy.deepcopy(d)
     cur = d
@@ -184,7 +191,8 @@ def jobs(tier, seed):
     for bi, base in enumerate(bases):
         for machine in (True, False):
             d = base if machine else None
-            sites = fault_sites(base if machine else {"input_vars": base["input_vars"], "output_vars": base["output_vars"], "assumptions": ["s"] * len(base["assumptions"]), "guarantees": ["s"] * len(base["guarantees"])}, machine)
+            # the string form may hold fewer entries than the machine form (opposite pairs print as one string)
+            sites = fault_sites(base if machine else string_form(base), machine)
             for path, kind in sites:
                 for entry in ("validate", "from_dict", "file") if machine else ("validate", "file"):
                     out.append({"kind": "dict-fault", "base": bi, "machine": machine, "path": path, "fault": kind, "entry": entry})
@@ -349,11 +357,18 @@ def run(ctx, job):
         except Exception as e:
             cls = B.classify(e)
             # from_strings(**bad) with a missing keyword is a Python-level TypeError of the caller's own making
-            allowed = ("CFE", "VE", "IAE", "SYNTAX", "CONVEX")
+            # a field of the wrong kind is rejected with ContractFormatError / ValueError; the string errors are the
+            # documented answer only where a string was replaced by another string (string representation)
+            str_for_str = (not machine) and job["fault"] == "str" and isinstance(_at(good, job["path"]), str)
+            allowed = ("CFE", "VE", "IAE") + (("SYNTAX", "CONVEX") if str_for_str or job["fault"] == "delete" else ())
             ok = cls in allowed or (job["entry"] == "from_strings" and job["fault"] == "delete" and len(job["path"]) == 1 and cls == "ESC:TypeError")
             ctx.expect(label, ok, info=f"{info}: {cls}@{B.innermost_pacti_frame(e)}")
             ctx.tag("rejected")
             return {"cls": cls if cls in DOCUMENTED else "ESC"}
+        if job["fault"] != "delete" and not ((not machine) and job["fault"] == "str" and isinstance(_at(good, job["path"]), str)):
+            # a field of another kind must not be read at all (a string is a sequence of characters, True is a number ...)
+            ctx.expect("wrong-kind-field-rejected", False, info=info + ": accepted")
+            return {"cls": "OK"}
         # accepted: must mean the same as the valid dictionary (e.g. a deleted redundant constraint does not)
         same = [v.name for v in got.inputvars] == [v.name for v in reference.inputvars] and [v.name for v in got.outputvars] == [v.name for v in reference.outputvars]
         if same:
